@@ -307,19 +307,6 @@ theorem fresh_system_defaults {net : Network} {space : Space} {u : Sys} {s : Sys
       · cases h
       · cases h; simp_all
 
-/-- a system is only built on a space whose environment map stays within the network's environments -/
-theorem space_env_validated {net : Network} {space : Space} {u : Sys} {s : System} (h : mkSystem net space u = .ok s) :
-    ∀ e ∈ space.envArray, e < net.envs.length := by
-  unfold mkSystem at h
-  split at h
-  · cases h
-  · next hacc =>
-    have hacc' : spaceAccepted net space = true := by simpa using hacc
-    intro e he
-    have := List.all_eq_true.1 hacc' e he
-    simp only [spaceEnvBad, Bool.not_eq_true', decide_eq_false_iff_not] at this
-    omega
-
 /-! ## non-vacuity -/
 
 example : stateIndex 4 1 2 = 6 ∧ stateIndex 4 0 3 = 3 := by decide
